@@ -1649,6 +1649,7 @@ func c08Scope(p *Program, r *Report, scope []*ssa.Function, as string) (map[stri
 			c08Alloc(p, r, fn, lc, pr)
 			c08Loops(p, r, fn, lc, av)
 			c08NilResults(p, r, fn)
+			c08NilAfterError(p, r, fn)
 		}
 	}
 	return kinds, hows
